@@ -713,6 +713,11 @@ func (t *AHtree) DataAt(n uint64) ([]byte, error) {
 	pOff := binary.BigEndian.Uint64(b[:])
 	pSize := binary.BigEndian.Uint32(b[offsetSize:])
 
+	// a payload can not extend beyond the data appended so far
+	if pOff > uint64(t.pLogSize) || uint64(szSize)+uint64(pSize) > uint64(t.pLogSize)-pOff {
+		return nil, ErrorCorruptedData
+	}
+
 	p := make([]byte, pSize)
 	_, err = t.pLog.ReadAt(p[:], int64(pOff+szSize))
 	if err != nil {
